@@ -51,6 +51,7 @@ static Op mkop(int kind, std::vector<int64_t> a) { Op o; o.kind = kind; o.a = st
 int main(int argc, char **argv) {
     Args a = parse_args(argc, argv);
     if (!a.replay.empty()) return replay_case(a, run);
+    zygote_start(run);   // before any code under test runs in this process
     Current::install(a.failing);
     Evidence ev;
     ev.rule = "(1) exhaustive single-step sweep: all 256x256 (ToS, opcode) pairs x {no mapper, X active} x {probe Discover from X, from third station Z}; "
